@@ -191,9 +191,78 @@ def ep_discovery_family(r, n):
     return out
 
 
+def king_en_prise_family(r, n):
+    """Positions the search reaches one ply below an unchecked move: the side to move can TAKE THE KING, and there is an
+    en-passant square (the unchecked move was a double step beside an enemy pawn), castling rights or both. Every
+    unchecked move, the king capture included, is played and taken back."""
+    out = []
+    tries = 0
+    while len(out) < n and tries < 80 * n:
+        tries += 1
+        board = {}
+        f = r.randrange(8)
+        a = f + r.choice([-1, 1])
+        if not 0 <= a < 8:
+            continue
+        board[(4, f)] = "p"          # Black has just played f7-f5 ...
+        board[(4, a)] = "P"          # ... beside a white pawn: en-passant square on rank 6
+        kr, kc = r.randrange(8), r.randrange(8)
+        if (kr, kc) in board or (kr, kc) in ((5, f), (6, f)):
+            continue
+        board[(kr, kc)] = "k"
+        att = r.choice("QRBN")
+        cand = []
+        if att in "QR":
+            cand += [(kr, c) for c in range(8) if c != kc] + [(rr, kc) for rr in range(8) if rr != kr]
+        if att in "QB":
+            cand += [(kr + d * s1, kc + d * s2) for d in range(1, 8) for s1 in (1, -1) for s2 in (1, -1)]
+        if att == "N":
+            cand += [(kr + x, kc + y) for x, y in ((1, 2), (2, 1), (-1, 2), (-2, 1), (1, -2), (2, -1), (-1, -2), (-2, -1))]
+        cand = [s for s in cand if 0 <= s[0] < 8 and 0 <= s[1] < 8 and s not in board and s not in ((5, f), (6, f))]
+        if not cand:
+            continue
+        s = r.choice(cand)
+        # the line between attacker and king must be empty
+        dr, dc = (kr > s[0]) - (kr < s[0]), (kc > s[1]) - (kc < s[1])
+        if att != "N":
+            x, y, blocked = s[0] + dr, s[1] + dc, False
+            while (x, y) != (kr, kc):
+                blocked |= (x, y) in board
+                x, y = x + dr, y + dc
+            if blocked:
+                continue
+        board[s] = att
+        wk = next((q for q in [(0, 4), (0, 0), (0, 7), (2, 0), (2, 7)] if q not in board and max(abs(q[0] - kr), abs(q[1] - kc)) > 1), None)
+        if wk is None:
+            continue
+        board[wk] = "K"
+        white = r.random() < 0.5
+        rows = []
+        for row in range(7, -1, -1):
+            s_, e = "", 0
+            for col in range(8):
+                ch = board.get((row, col)) if white else board.get((7 - row, col))
+                if ch and not white:
+                    ch = ch.swapcase()
+                if ch:
+                    s_ += (str(e) if e else "") + ch
+                    e = 0
+                else:
+                    e += 1
+            rows.append(s_ + (str(e) if e else ""))
+        out.append("/".join(rows) + (" w - " if white else " b - ") + "abcdefgh"[f] + ("6" if white else "3") + " 0 1")
+    return out
+
+
 def gen_cases(seed, salt, n_cases, plies):
     r = core.rng(seed, salt)
     cases = []
+    if salt == "C03":
+        for f in king_en_prise_family(core.rng(seed, salt + "kingcap"), 40 if n_cases < 1000 else 1500):
+            ops = ["new " + f, "obs", "moves u", "obs"]
+            for k in range(36):
+                ops += ["push u %d" % k, "obs", "undo", "obs"]
+            cases.append(ops + ["moves u", "obs"])
     if salt in ("C01", "C02", "C03", "C04", "C11"):
         for f, mv in ep_discovery_family(core.rng(seed, salt + "epdisc"), 40 if n_cases < 1000 else 1500):
             cases.append(["new " + f, "obs", "moves c", "obs", "playh " + mv, "obs", "moves c", "obs", "moves u", "obs",
